@@ -260,7 +260,7 @@ def run(module: str, obname: str, part_idx: int, tier: str, known_ids: List[str]
         _install_opaque_number_format()
     tmpdir = tempfile.mkdtemp(prefix="vfob_")
     timeout = ob.tmo(tier)
-    active = [k for k in known_ids if k in ob.regions]
+    active = [k for k in known_ids if k in ob.regions and ob.region_parts.get(k, lambda p: True)(part)]
     runs: Dict[str, Any] = {}
     try:
         # ---------------- reachability twin ----------------
